@@ -392,7 +392,7 @@ def _run_body(job, io, tape):
             elif kind == 'mutate_handout':
                 e = pick()
                 which = tape.choice(('paths', 'accessors', 'entries', 'children', 'leaves', 'flatten_leaves', 'entries_elems', 'paths_elems', 'unflatten_result', 'unflatten_result',
-                                     'walk_meta', 'getstate', 'setstate_input'), 'which')
+                                     'walk_meta', 'getstate', 'setstate_input', 'one_level_children', 'one_level_children'), 'which')
                 detail = which
                 site = 'mutate_handout:' + which
                 io.progress({'site': site, 'tape': tape.values})
@@ -415,6 +415,25 @@ def _run_body(job, io, tape):
                         if isinstance(cont, U.Node) and isinstance(cont.aux, list):
                             cont.aux.append('junk')
                     back = cont = None
+                elif which == 'one_level_children' and e.tree is not None:
+                    # what tree_flatten_one_level hands out (children list, entries) belongs to the caller: scrambling it must leave
+                    # the input tree and its inner containers as they were
+                    snap_ol = clone(e.tree)
+                    for node_ol in [x for x in walk(e.tree) if py_children(x) is not None][:6]:
+                        try:
+                            one_ol = optree.tree_flatten_one_level(node_ol, none_is_leaf=sp.none_is_leaf, namespace=ns)
+                        except ValueError:
+                            continue
+                        ch_ol = one_ol[0]
+                        if isinstance(ch_ol, list):
+                            ch_ol.append('junk-child')
+                            ch_ol.reverse()
+                            del ch_ol[:1]
+                        ch_ol = one_ol = None
+                    d = same(snap_ol, e.tree)
+                    if d:
+                        viol('input-mutated', site, 'mutating the children list returned by tree_flatten_one_level changed the input tree: %s' % d)
+                    snap_ol = node_ol = None
                 elif which == 'walk_meta':
                     # walk() passes each node's metadata to f_node; for dict-like nodes that is a list the ENGINE made
                     handed = []
